@@ -554,12 +554,47 @@ fn regions_space() -> Space {
     .sandboxed(sb(128))
 }
 
+// space G: modules (loaded and unloaded) whose range touches the ends of the address space, with a thread inside them
+fn module_extremes_space() -> Space {
+    use vh::procgen::ModM;
+    // (base, size): empty, one byte at 0, ending exactly at 2^64, one byte below, the last byte alone, past the end,
+    // the largest size in the middle
+    let places: [(u64, u32); 8] = [(0, 0), (0, 1), (u64::MAX - 0xffff, 0x1_0000), (u64::MAX - 0xffff, 0xffff), (u64::MAX, 1), (u64::MAX - 0xff, 0x1000), (1 << 63, u32::MAX), (0xffff_ffff, 2)];
+    let cpus = [CpuK::Amd64, CpuK::X86, CpuK::Arm64, CpuK::Mips64];
+    let radices = [places.len() as u64, places.len() as u64, cpus.len() as u64, 3, 2];
+    let n = product(&radices);
+    let gen = move |idx: u64| -> (Model, Value) {
+        let d = unrank(idx, &radices);
+        let (p1, p2) = (places[d[0] as usize], places[d[1] as usize]);
+        let cpu = cpus[d[2] as usize];
+        let mut m = Model::new(cpu, if d[4] == 0 { md::PlatformId::Linux as u32 } else { md::PlatformId::VER_PLATFORM_WIN32_NT as u32 });
+        // the thread's instruction pointer: first byte, last byte (wrapping), one past the last byte of the first module
+        let ip = [p1.0, p1.0.wrapping_add(p1.1 as u64).wrapping_sub(1), p1.0.wrapping_add(p1.1 as u64)][d[3] as usize];
+        m.threads = vec![ThreadM { tid: 1, ctx_ok: true, ip, sp: procgen::STACK_BASE + 8 }];
+        m.modules = vec![procgen::app_module(), ModM { base: p1.0, size: p1.1, name: "/lib/first.so".into() }, ModM { base: p2.0, size: p2.1, name: "/lib/second.so".into() }];
+        m.unloaded = vec![ModM { base: p2.0, size: p2.1, name: "gone.dll".into() }, ModM { base: p1.0, size: p1.1, name: "gone2.dll".into() }];
+        (m, json!({"class": "module-extremes", "modules": [format!("{:#x}+{:#x}", p1.0, p1.1), format!("{:#x}+{:#x}", p2.0, p2.1)], "ip": format!("{ip:#x}"), "cpu": format!("{cpu:?}")}))
+    };
+    let g2 = gen.clone();
+    Space::new(
+        "module-extremes",
+        n,
+        move |idx, l| {
+            let (m, d) = gen(idx);
+            let b = procgen::build(&m);
+            run_case(&b, &None, idx, l, &|| d.clone());
+        },
+        move |idx| g2(idx).1,
+    )
+    .sandboxed(sb(256))
+}
+
 fn main() {
     run_check("C03", |ctx| {
         let mut def = CheckDef::new(
             "C03",
             "fault_enumeration",
-            "every case = (dump bytes, symbol bytes served to every module, option set rotating over stable_basic / stable_all / unstable_all) through the real process_minidump_with_options and all four renderers in sandboxed workers (panic guard, 8 s wall confirmed by a solo re-run, 768 MiB heap cap), then frame budget (frames <= stack bytes + 2 per thread) and strict JSON validity. Spaces: one-deviation mutations (every 4-aligned offset x width {4,8} x boundary/directory-value menu) of the 54 synthetic seed dumps x 11 symbol menus (quick: shard VERIF_SEED mod 8 of the mutations, completely; thorough: all); all sequences of <= 3 /proc limits lines over 10 line shapes x LF/CRLF; amd64 crash contexts whose instruction bytes run over ALL 2-byte [thorough 3-byte] prefixes x rsp menu; x86 STACK WIN records with every size field in {0,1,4,2^31,2^32-1} x 3 record kinds x 4 esp values; every (a, b, operator) triple over an 11-value operand menu on the extremes of the 32-bit (STACK WIN program strings) and 64-bit (STACK CFI rules) ranges x 7 operators x 2 stack placements; CFI menus (CFA below/equal/above sp, memory-free rules) x 9 CPUs x 5 platforms x stack sizes x 3 placements incl. top of address space; memory-map regions ending at the extremes next to the crash address. distinct_nontrivial = distinct (thread count, per-thread frame count + trust sequence, crash reason, option set).",
+            "every case = (dump bytes, symbol bytes served to every module, option set rotating over stable_basic / stable_all / unstable_all) through the real process_minidump_with_options and all four renderers in sandboxed workers (panic guard, 8 s wall confirmed by a solo re-run, 768 MiB heap cap), then frame budget (frames <= stack bytes + 2 per thread) and strict JSON validity. Spaces: one-deviation mutations (every 4-aligned offset x width {4,8} x boundary/directory-value menu) of the 54 synthetic seed dumps x 11 symbol menus (quick: shard VERIF_SEED mod 8 of the mutations, completely; thorough: all); all sequences of <= 3 /proc limits lines over 10 line shapes x LF/CRLF; amd64 crash contexts whose instruction bytes run over ALL 2-byte [thorough 3-byte] prefixes x rsp menu; x86 STACK WIN records with every size field in {0,1,4,2^31,2^32-1} x 3 record kinds x 4 esp values; every (a, b, operator) triple over an 11-value operand menu on the extremes of the 32-bit (STACK WIN program strings) and 64-bit (STACK CFI rules) ranges x 7 operators x 2 stack placements; CFI menus (CFA below/equal/above sp, memory-free rules) x 9 CPUs x 5 platforms x stack sizes x 3 placements incl. top of address space; memory-map regions ending at the extremes next to the crash address; loaded and unloaded modules whose range touches the ends of the address space (ending exactly at 2^64, one byte below, past it, empty) with a thread at their first / last / one-past-last byte. distinct_nontrivial = distinct (thread count, per-thread frame count + trust sequence, crash reason, option set).",
         );
         def.assumptions = vec![
             "small scope: mutated dumps are one deviation away from a seed; symbol bytes come from a 7-entry menu served to every module".into(),
@@ -567,7 +602,7 @@ fn main() {
             "time and memory budgets are constants (8 s, 768 MiB) far above what the tiny inputs legitimately need, not a function fitted to the input size".into(),
         ];
         def.extra.insert("quick_shard".into(), json!(ctx.seed % 8));
-        def.spaces = vec![limits_space(), stackwin_space(), operand_extremes_space(), cfi_space(), regions_space(), opcode_space(ctx.tier), mutated_space(ctx.tier, ctx.seed)];
+        def.spaces = vec![limits_space(), stackwin_space(), operand_extremes_space(), cfi_space(), regions_space(), module_extremes_space(), opcode_space(ctx.tier), mutated_space(ctx.tier, ctx.seed)];
         def
     })
 }
